@@ -264,6 +264,8 @@ class Fn:
             l = r
         if is_(first, "seq") and len(e.ops) == 1 and isinstance(e.ops[0], (ast.Eq, ast.Lt, ast.LtE, ast.Gt, ast.GtE, ast.NotEq)):
             return Seq(first[1], BOOL)
+        if is_(l, "seq") and len(e.ops) == 1 and isinstance(e.ops[0], (ast.Eq, ast.Lt, ast.LtE, ast.Gt, ast.GtE, ast.NotEq)):
+            return Seq(l[1], BOOL)      # scalar <op> array: the mask lives in the array's space whichever side it is written on
         return BOOL
 
     def show(self, t):
